@@ -26,7 +26,8 @@ func TransformBlackBoxes(blackboxes []*sysl.Attribute) [][]string {
 	bbs := make([][]string, 0, len(blackboxes))
 	for _, vals := range blackboxes {
 		subBbs := []string{}
-		for _, val := range vals.GetA().Elt {
+		// an element that is not a list (`blackboxes = ["App <- Ep"]`) has no array to read
+		for _, val := range vals.GetA().GetElt() {
 			subBbs = append(subBbs, val.GetS())
 		}
 		if len(subBbs) > 0 {
@@ -63,10 +64,18 @@ func MergeAttributes(app, edpnt map[string]*sysl.Attribute) map[string]*sysl.Att
 
 func TransformBlackboxesToUptos(m map[string]*Upto, bbs [][]string, uptoType UptoType) {
 	for _, val := range bbs {
+		if len(val) == 0 {
+			continue
+		}
+		// a blackbox written without a note (`[["App <- Ep"]]`) has the empty note
+		comment := ""
+		if len(val) > 1 {
+			comment = val[1]
+		}
 		m[val[0]] = &Upto{
 			VisitCount: 0,
 			ValueType:  uptoType,
-			Comment:    val[1],
+			Comment:    comment,
 		}
 	}
 }
